@@ -11,7 +11,7 @@ from .. import history, probes
 from ..battery import call, _Raised
 from ..observe import observe
 
-TIERS = {"quick": 1000, "thorough": 20000}
+TIERS = {"quick": 1000, "thorough": 100000}
 WATCHDOG_S = {"quick": 900, "thorough": 7200}
 RULE = ("case kinds by index mod 8: 0 random_hypergraph, 1 random_uniform_hypergraph, 2 scale_free_hypergraph (default "
         "arguments, correlated both, corr_target given/omitted, num_shuffles), 3 HOADmodel, 4 add_random_edge(s), 5-7 "
